@@ -1,5 +1,5 @@
 (* C13S — source tie by translation for the losses' compositions (the graphs back-propagation runs over).
-   Statements only (proofs: Proofs/ChainP.v).  Model/Chains.v is REGENERATED from /repo's Go sources
+   Statements only (proofs: Proofs/Chain*P.v).  Model/Chains.v is REGENERATED from /repo's Go sources
    on every run by the translator harness/chainx (go/ast): the straight-line chains of Tensor method
    calls of MSE.Compute, BCE.Compute, CE.Compute and clip (component/losses/*.go).
    Each theorem interprets the generated chain with the model's own operations (Model/ChainIR.v) and
@@ -9,14 +9,14 @@
 From Coq Require Import String List ZArith Bool.
 From Qeep Require Import Model.Scalar Model.Nd Model.Data Model.Valid Model.Api Model.Grad Model.Components Model.ChainIR.
 From Qeep Require Model.Chains.
-From Qeep Require Import Proofs.ChainP.
+From Qeep Require Import Proofs.ChainBaseP Proofs.ChainLossP.
 Import ListNotations.
 Local Open Scope string_scope.
 
 Theorem clip_is_its_source_chain :
   forall (A : Type) (SA : Scalar A) (h : heap) (x : nat) (l u : A),
   clip h x l u = asHres (runFun (hooksH (rsClip l u) noUser None noGuard) Chains.clip h [("x", x)]).
-Proof. exact @ChainP.clip_chain. Qed.
+Proof. exact @ChainLossP.clip_chain. Qed.
 Print Assumptions clip_is_its_source_chain.
 
 Theorem mse_compute_is_its_source_chain :
@@ -30,7 +30,7 @@ Theorem mse_compute_is_its_source_chain :
                         | Some _ => true
                         | None => false
                         end)) Chains.mse_compute h [("yp", p); ("yt", t)])).
-Proof. exact @ChainP.mse_chain. Qed.
+Proof. exact @ChainLossP.mse_chain. Qed.
 Print Assumptions mse_compute_is_its_source_chain.
 
 Theorem bce_compute_is_its_source_chain :
@@ -44,7 +44,7 @@ Theorem bce_compute_is_its_source_chain :
                         | Some _ => true
                         | None => false
                         end)) Chains.bce_compute h [("yp", p); ("yt", t)])).
-Proof. exact @ChainP.bce_chain. Qed.
+Proof. exact @ChainLossP.bce_chain. Qed.
 Print Assumptions bce_compute_is_its_source_chain.
 
 Theorem ce_compute_is_its_source_chain :
@@ -54,5 +54,5 @@ Theorem ce_compute_is_its_source_chain :
     (asHres
        (runFun (hooksH rsNone (clipUser eps ome) nm (lossGuard (ceOk h p t))) Chains.ce_compute h
           [("yp", p); ("yt", t)])).
-Proof. exact @ChainP.ce_chain. Qed.
+Proof. exact @ChainLossP.ce_chain. Qed.
 Print Assumptions ce_compute_is_its_source_chain.
